@@ -90,3 +90,25 @@ def position_spec(n_o, n_t, area, arc, ang, r, zero=0):
                 bor[p][q] = area[i] * R[lo] * R[lo]
                 dis[p][q] = r[lo + 1] - r[lo]
     return R, vol, adj, bor, dis
+
+
+def direction_contract():
+    """DirStub stands for the direction grid's compiled geometry (scipy SphericalVoronoi + the package's region bookkeeping): adjacency,
+    border arcs and centre angles on ONE symmetric stored pattern in ONE entry order, positive values, positive cell areas that add up
+    to the sphere.  That contract is re-checked here on small real direction grids (a broken contract is a harness error, never a pass)."""
+    import contextlib, io
+    import molgri.space.rotobj as RO
+    n = 0
+    with contextlib.redirect_stdout(io.StringIO()):
+        for alg, Ns in (("ico", (4, 5, 7, 12)), ("cube3D", (4, 6, 9)), ("randomS", (5, 8))):
+            for N in Ns:
+                g = RO.SphereGrid3DFactory.create(alg, N)
+                A = g.get_voronoi_adjacency(only_upper=False, include_opposing_neighbours=False).tocoo()
+                B, D = g.get_cell_borders().tocoo(), g.get_center_distances().tocoo()
+                ar = np.asarray(g.get_spherical_voronoi().get_voronoi_volumes(), dtype=float)
+                assert all(np.array_equal(A.row, M.row) and np.array_equal(A.col, M.col) for M in (B, D)), (alg, N, "the three matrices differ in pattern or entry order")
+                assert np.allclose(B.toarray(), B.toarray().T) and np.allclose(D.toarray(), D.toarray().T) and (A.toarray() == A.toarray().T).all(), (alg, N, "a matrix is not symmetric")
+                assert (B.data > 0).all() and (D.data > 0).all() and (ar > 0).all() and len(ar) == N, (alg, N, "a border / distance / area is not positive")
+                assert abs(ar.sum() / (4 * np.pi) - 1) < 1e-6, (alg, N, "cell areas do not add up to the sphere", ar.sum())
+                n += 1
+    return n
